@@ -23,6 +23,8 @@ var AATrailers = map[AAHash][]byte{AASHA1: {0xBC}, AASHA224: {0x38, 0xCC}, AASHA
 // AAState is the chip half of Active Authentication (ICAO 9303-11 section 6.1).
 type AAState struct {
 	RNG *mrand.Rand
+	// FailNext: that many INTERNAL AUTHENTICATE commands are answered 6F00 after the challenge was taken
+	FailNext int
 	// RSA
 	N, E, D *big.Int
 	Hash    AAHash
@@ -142,6 +144,11 @@ func (a *AAState) internalAuthenticate(c *Card, cmd *Cmd) ([]byte, uint16) {
 	}
 	a.Challenges = append(a.Challenges, append([]byte{}, cmd.Data...))
 	c.AAChallenges = a.Challenges
+	if a.FailNext > 0 {
+		// a transient card error: the challenge was received, no signature is produced
+		a.FailNext--
+		return nil, 0x6F00
+	}
 	sign := a.SignEC
 	if a.N != nil {
 		sign = a.SignRSA
